@@ -43,7 +43,7 @@ fn scratch_for<B: FullBackend>(threads: usize) -> ScratchOwned<B>
 where
     ScratchOwned<B>: ScratchOwnedAlloc<B>,
 {
-    ScratchOwned::<B>::alloc((1 << 23) + threads * (3 << 20))
+    pzv_be::dirty_scratch::<B>((1 << 23) + threads * (3 << 20))
 }
 
 fn run<B: FullBackend>(c: &TestContext<CGGI, B>, w: &Case) -> Verdict
